@@ -5,7 +5,7 @@ cd "$(dirname "$0")/.."
 id=$1; p=$(readlink -f "$2")
 git -C /repo apply --check "$p" || { echo "patch does not apply"; exit 3; }
 git -C /repo apply "$p"
-out=$(./check.sh "$id" quick 2>&1); rc=$?
+out=$(GOVC_EVIDENCE_DIR=/verif/out/selftest-evidence ./check.sh "$id" quick 2>&1); rc=$?
 git -C /repo apply -R "$p"
 echo "$out" | grep -E "^VIOLATION|^KNOWN|^property|govc:" | sed 's/replay=[^ ]* //' | head -12
 echo "exit=$rc"
